@@ -20,7 +20,7 @@ def run(ctx: Ctx) -> int:
     # lowering level: every body of the corpus under both decorators through /repo's whole pipeline; the two emitted HUGRs are interpreted side by side (lib/e7.py)
     import json, os
     from lib.core import Obligation
-    nb = 28          # bodies 0..27 are the main corpus, body 28 lies inside the known finding
+    nb = 31          # bodies 0..30 are the main corpus, body 31 lies inside the known finding
     for b in range(nb):
         jobs.append(Job(H2, "h_same", timeout=ctx.pick(300, 900), name=f"h_same[body {b}]", env={"VERIF_C21_BATCH": str(b)}))
     KEY_N = "C21:python-int-argument-for-nat-parameter"
@@ -29,10 +29,10 @@ def run(ctx: Ctx) -> int:
     ctx.functions_encoded.append("lowering level: tracing/function.py trace_function / trace_call, tracing/object.py GuppyObject / GuppyStructObject, tracing/unpacking.py guppy_object_from_py / "
                                  "unpack_guppy_object / update_packed_value, tracing/builtins_mock.py (int / float / len / abs), definition/traced.py — and the regular pipeline for the same body; "
                                  "both emitted HUGRs interpreted by lib/e7.py")
-    ctx.bounds["bodies"] = ("28 bodies (arithmetic and bitwise operators with constants on either side, mixed int / float, comparisons and & | ^ on bools, calls of opaque and of Guppy functions, tuples, "
+    ctx.bounds["bodies"] = ("31 bodies (arithmetic and bitwise operators with constants on either side, mixed int / float, comparisons and & | ^ on bools, calls of opaque and of Guppy functions, tuples, "
                             "nested tuples, tuple returns incl. a 1-tuple, unrolled Python loops, arrays: construction, element reads / stores / augmented stores, arrays lent to borrowing functions "
                             "(with element copies read before the call, with plain Python constants inside, rows of arrays of arrays, an array inside a tuple), structs, int() / float() / abs() / len(), "
-                            "equal-but-differently-typed constants, signed zeros); x in [-3, 4], |y| <= 1000, |opaque results| <= 1000 (symbolic); for the 8 bodies with bitwise / shift / power / float arithmetic x and y are enumerated by the solver over [-3, 4] x [-8, 8]")
+                            "equal-but-differently-typed constants, signed zeros, a traced nat next to Python int constants); x in [-3, 4], |y| <= 1000, |opaque results| <= 1000 (symbolic); for the 8 bodies with bitwise / shift / power / float arithmetic x and y are enumerated by the solver over [-3, 4] x [-8, 8]")
     ctx.crosshair(jobs)
     rep = {"unsupported": {}, "paths_outside": {}, "lowered_both": 0, "bodies": 0, "guppy_side_not_lowered": []}
     import glob
